@@ -1,6 +1,7 @@
 import Magog.Lemmas.GoArith
 import Magog.Props.C05
 import Magog.Model.Eval
+import Magog.Lemmas.EvalDecision
 
 /-! C05 - mate-score arithmetic and score formatting: the Go functions `nextMoveWins`, `closeToMate`, `pliesToMate`, `fullMovesToMate`.
 
@@ -108,6 +109,46 @@ theorem lazyEvaluate_tie (blend : Model.Blend) (p : Model.Position) (depth alpha
         have a2 : ¬ ((((own:Int) * 5) == 0) = true) := by rw [beq_iff_eq]; omega
         rw [if_neg a1, if_neg a2]
         congr 1
+        have e1 : ((own * 5 : Nat) : Int) = (own : Int) * 5 := by omega
+        have e2 : ((enemy * 5 : Nat) : Int) = (enemy : Int) * 5 := by omega
+        rw [e1, e2]
+        omega
+
+/-- the translated Go decision is that function, for all values a search can produce -/
+theorem LazyEvaluate_decision_eq (depth alpha beta : Int) (mate : Bool) (cheap : Int) (own enemy : Nat)
+    (hd : Small depth) (ha : Small alpha) (hb : Small beta) (hc : Small cheap) (ho : own < 1000000) (he : enemy < 1000000) :
+    Gen.Fn.LazyEvaluate_decision depth alpha beta mate cheap own enemy = Lemmas.lazyDecision depth alpha beta mate cheap own enemy := by
+  unfold Small at *
+  unfold Gen.Fn.LazyEvaluate_decision Lemmas.lazyDecision
+  cases mate with
+  | true =>
+    simp only [↓reduceIte, Gen.LostScore]
+    rw [wrapS64_id (by omega) (by omega)]
+  | false =>
+    simp only [Bool.false_eq_true, ↓reduceIte, Gen.fullEvalScoreMargin, Gen.MobilityScoreFactor, Gen.DrawScore]
+    rw [wrapS64_id (x := beta + 320) (by omega) (by omega), wrapS64_id (x := alpha - 320) (by omega) (by omega),
+      wrapS64_id (x := (own:Int) * 5) (by omega) (by omega), wrapS64_id (x := (enemy:Int) * 5) (by omega) (by omega),
+      wrapS64_id (x := (own:Int) * 5 - (enemy:Int) * 5) (by omega) (by omega),
+      wrapS64_id (x := cheap + ((own:Int) * 5 - (enemy:Int) * 5)) (by omega) (by omega)]
+    have c320 : ((320 : Nat) : Int) = 320 := rfl
+    have c0 : ((0 : Nat) : Int) = 0 := rfl
+    simp only [c320, c0]
+    by_cases hcut : cheap > beta + 320 ∨ cheap < alpha - 320
+    · have hb' : (decide (cheap > beta + 320) || decide (cheap < alpha - 320)) = true := by
+        rcases hcut with h | h
+        · simp [h]
+        · simp [h]
+      rw [if_pos hb', if_pos hb']
+    · have hb' : ¬ ((decide (cheap > beta + 320) || decide (cheap < alpha - 320)) = true) := by
+        intro h
+        rw [Bool.or_eq_true, decide_eq_true_eq, decide_eq_true_eq] at h
+        exact hcut h
+      rw [if_neg hb', if_neg hb']
+      by_cases h0 : own = 0
+      · subst h0; rfl
+      · have a1 : ¬ ((own * 5 == 0) = true) := by rw [beq_iff_eq]; omega
+        have a2 : ¬ ((((own:Int) * 5) == 0) = true) := by rw [beq_iff_eq]; omega
+        rw [if_neg a1, if_neg a2]
         have e1 : ((own * 5 : Nat) : Int) = (own : Int) * 5 := by omega
         have e2 : ((enemy * 5 : Nat) : Int) = (enemy : Int) * 5 := by omega
         rw [e1, e2]
